@@ -349,6 +349,9 @@ GEN_THEOREMS = {
     "C07": ("CoreDhcp.Props.GenAlloc4", ["GEN_a4_allocate_eq", "GEN_a4_toOffset_eq"]),
 }
 GEN_THEOREMS_MORE = [
+    # cmds/coredhcp/main.go, plugins.RegisterPlugin and the Plugin declaration of every built-in plugin regenerated (unit mainreg)
+    ("C13", "CoreDhcp.Props.GenMainReg", ['GEN_mainreg_register_eq', 'GEN_mainreg_printLoop_eq', 'GEN_mainreg_regLoop_eq', 'GEN_mainreg_registry0', 'GEN_mainreg_main_eq', 'MAINREG_protocol_support', 'MAINREG_protocol_support_models', 'MAINREG_names_distinct', 'MAINREG_registration_never_panics', 'MAINREG_registry_exact', 'MAINREG_second_registration_panics', 'MAINREG_view4', 'MAINREG_view6', 'MAINREG_unknown_name_rejected', 'MAINREG_unsupported_skipped', 'MAINREG_load_exact4', 'MAINREG_load_exact6', 'MAINREG_run']),
+    ("C18", "CoreDhcp.Props.GenMainReg", ['GEN_mainreg_main_eq', 'MAINREG_flag_table', 'MAINREG_log_levels', 'MAINREG_config_before_sockets', 'MAINREG_config_before_sockets_gen', 'MAINREG_run', 'MAINREG_list_plugins_is_pure']),
     # the argument and start-up part of setupRange regenerated (unit rangesetup): which argument goes where, the order of the tests, the lease-time test of D21
     ("C19", "CoreDhcp.Props.GenRangeSetup", ['GEN_rangesetup_setup_eq', 'GEN_rangesetup_plugin_eq', 'RANGESETUP_accepts_iff', 'RANGESETUP_no_partial_state', 'RANGESETUP_argument_roles', 'RANGESETUP_range_wellformed', 'RANGESETUP_one_address_range_rejected', 'RANGESETUP_extra_args_ignored', 'RANGESETUP_plugin_decl', 'RANGESETUP_allocator_never_refuses']),
     ("C02", "CoreDhcp.Props.GenRangeSetup", ['GEN_rangesetup_setup_eq', 'RANGESETUP_range_wellformed', 'RANGESETUP_accepted_starts_handler', 'RANGESETUP_accepted_serves_C02_C03']),
